@@ -7,3 +7,11 @@ UNITS = {
         "doc": "portable compression function and byte/word helpers against the paper's G/round/permutation",
     },
 }
+
+UNITS["chunk"] = {
+    "files": CRATE_FILES,
+    "prelude": _p("prelude/core.rs", "prelude/deps.rs", "prelude/kernels.rs"),
+    "spec": _p("spec/blake3_spec.rs"),
+    "overlays": _p("contracts/compress.vc", "contracts/chunk.vc"),
+    "doc": "Platform dispatch, hash1/hash_many, ChunkState, Output against the chunk-level spec",
+}
